@@ -10,6 +10,8 @@ pub enum IoErrorKind { UnexpectedEof, Other, NotFound, WouldBlock, AlreadyExists
 impl IoError {
     pub fn kind(&self) -> (k: IoErrorKind) ensures k == self.kind { self.kind }
 }
+#[verifier::external]
+impl std::fmt::Debug for IoError { fn fmt(&self, f: &mut std::fmt::Formatter<'_>) -> std::fmt::Result { unimplemented!() } }
 pub mod std_io_shim {
     pub use super::IoErrorKind as ErrorKind;
     pub use super::IoError as Error;
@@ -37,6 +39,8 @@ pub mod lsm_tree {
     pub use super::Slice as UserValue;
     pub use super::Slice;
 }
+#[verifier::external]
+impl std::fmt::Debug for lsm_tree::Error { fn fmt(&self, f: &mut std::fmt::Formatter<'_>) -> std::fmt::Result { unimplemented!() } }
 pub use lsm_tree::ValueType;
 pub use lsm_tree::CompressionType;
 
